@@ -50,7 +50,7 @@ type Root struct {
 }
 
 // escape-relevant strings and awkward map keys (index 1..12)
-var strTab = []string{"", "plain", "", "a b", "q\"t", "n\nl", "$${x}-${y}", "%%{y}%{z}", "é́", "back\\slash", "for", "null", "0key-x"}
+var strTab = []string{"", "plain", "", "a b", "q\"t", "n\nl", "$${x}-${y}", "%%{y}%{z}", "é́", "back\\slash", "for", "null", "0key-x", "007", "7"}
 
 func str(i int) string { return norm.NFC.String(strTab[i]) }
 
